@@ -182,6 +182,24 @@ def g(x, acc=[]):
         rep.error('positive control silent: C18-no-shared-store did not flag a module-level cache')
     if 'C18-no-cache' not in rules:
         rep.error('positive control silent: C18-no-cache did not flag a mutable default argument')
+    src2 = '''
+class K:
+    _instance = None
+    def __new__(cls):
+        if cls._instance is None:
+            cls._instance = object.__new__(cls)
+        return cls._instance
+    def touch(self):
+        type(self).count = 1
+        self.__class__.seen = True
+        self.mine = 1
+'''
+    found2, _ = sharedstate.scan(ast.parse(src2), 'control')
+    hits = [m for r, q, m in found2 if r == 'C18-no-shared-store']
+    rep.count('positive controls evaluated', 1)
+    if len(hits) != 3:
+        rep.error(f'positive control: stores into a class object: expected 3 reports (cls, type(self), __class__) and '
+                  f'none for self.mine, got {len(hits)}')
 
 
 def affine_controls(rep):
